@@ -60,13 +60,13 @@ def judge_events(rep, events, spec, pinf=None, keyf=None):
         rep.count()
         why = vlib.robust_check(e)
         s = spec.get(e["id"])
-        adv = False
+        adv, pin = False, "none"
         if why is None and s is not None:
             pin = pinf(e, s) if pinf else "none"
             why, adv = vlib.compare(pin, s, e["res"])
         key = keyf(e) if keyf else "%s:%s" % (e["fn"], vlib.hashlib.sha1(vlib.json.dumps([e["a"], e["input"]]).encode()).hexdigest()[:10])
         if why:
-            rep.violation(key, {"id": e["id"], "fn": e["fn"], "a": e["a"], "input": e["input"], "expect": s, "pin": "none"},
+            rep.violation(key, {"id": e["id"], "fn": e["fn"], "a": e["a"], "input": e["input"], "expect": s, "pin": pin},
                           s, e["res"], why)
         elif adv:
             rep.cov["advisory_mismatches"] += 1
@@ -226,7 +226,7 @@ CAPTURE_FNS = ["parse_tls_plaintext", "tls_parser_many", "parse_tls_raw_record",
                ("parse_content_and_signature", {"sub": "ecdh", "ext": 1}), ("parse_content_and_signature", {"sub": "dh", "ext": 0})]
 
 
-def extract_captures(repo="/repo"):
+def extract_captures(repo=vlib.REPO):
     """Every byte-array literal (>= 4 bytes) of the crate's tests, benches and test modules, and its binary assets:
     the real captures the maintainers test with.  Read from the working tree at check time."""
     import glob, re
@@ -290,6 +290,54 @@ def captures(rep, binary, prop, fns=None, cuts=True):
     if big:
         rep.sample({"capture": big[0]["src"], "fn": big[0]["fn"], "bytes": big[0]["len"], "consumed": big[0]["res"]["p"]})
     rep.cov["captures"] = {"vectors": len(arrs), "inputs": len(inputs), "events": len(events), "accepted": ok_n}
+    rep.capture_ok = [{"fn": e["fn"], "a": e["a"], "input": e["input"], "expect": {"k": "ok"}} for e in events if e["res"]["k"] == "ok"]
+    return len(events)
+
+
+def class_pin(e, s):
+    """What the specification's answer pins on an arbitrary input: an accepted input pins value and position, an incomplete
+    one the class and (where the specification knows it) Needed, a rejected one the class (err / fail), not the error kind."""
+    if s["k"] == "ok":
+        return "full"
+    if s["k"] == "inc":
+        return "inc_n" if s["n"] > 0 else "inc"
+    return "reject"
+
+
+def dfuzz(rep, binary, prop, cases, n, fns=None, run="dfuzz", nchunks=12, with_captures=True):
+    """(b) impl -> spec on inputs NOBODY chose: seeded value-level mutations of the accepted encodings of this property's
+    corpus (TLC's cases and, where present, the repository's captures): one or a few bytes move to arbitrary values, so
+    every field visits the middle of its range, not only the boundaries the model enumerates; the crate's answer to each is
+    compared with the answer TLC computes from the specification (value and position in full when accepted, class and
+    Needed otherwise).  Seeded by VERIF_SEED."""
+    base, seen = [], set()
+    pool = list(cases) + (getattr(rep, "capture_ok", []) if with_captures else [])
+    for c in pool:
+        if c.get("expect", {}).get("k") != "ok" or (fns is not None and c["fn"] not in fns):
+            continue
+        size = sum(len(seg["lit"]) + seg["fill"][2] for seg in c["input"])
+        if size == 0 or size > 1200:
+            continue
+        key = vlib.json.dumps([c["fn"], c["a"], c["input"]], sort_keys=True)
+        if key not in seen:
+            seen.add(key)
+            base.append({"fn": c["fn"], "a": c["a"], "input": c["input"]})
+    if len(base) < 5:
+        raise vlib.ToolError("dfuzz(%s): only %d accepted encodings to mutate" % (prop, len(base)))
+    d = vlib.workdir(prop, run)
+    corpus, out = vlib.os.path.join(d, "corpus.ndjson"), vlib.os.path.join(d, "events.out.ndjson")
+    vlib.write_ndjson(corpus, base)
+    rc, _ = vlib.run_harness(binary, ["dfuzz", str(vlib.seed() + 101), str(n), corpus, out])
+    events = vlib.read_ndjson(out)
+    if rc == 3:
+        rep.violation("hang:dfuzz", {}, None, vlib.read_ndjson(out + ".timeout"), "watchdog: a call did not return within 5 s")
+    spec = trace_parse(rep, prop, run + "_oracle", events, nchunks=nchunks)
+    if len(spec) != len(events):
+        raise vlib.ToolError("dfuzz: %d specification answers for %d events" % (len(spec), len(events)))
+    judge_events(rep, events, spec, pinf=class_pin,
+                 keyf=lambda e: "dfuzz:%s:%s" % (e["fn"], vlib.hashlib.sha1(vlib.json.dumps([e["a"], e["input"]]).encode()).hexdigest()[:10]))
+    ok_n = sum(1 for e in events if e["res"]["k"] == "ok")
+    rep.cov["dfuzz"] = {"bases": len(base), "events": len(events), "accepted": ok_n}
     return len(events)
 
 
